@@ -17,6 +17,10 @@ MARK = re.compile(r'⟦(\d+)⟧')
 BUILTINS = ['len', 'print', 'str', 'int', 'sorted', 'list', 'dict', 'isinstance', 'object', 'Exception']
 LIB_NAMES = ['lib_a', 'lib_b', 'lib_f']
 LIB_SRC = 'lib_a = 1\nlib_b = [1, 2]\ndef lib_f(*a, **k):\n    return 1\n_lib_private = 3\n'
+# two project modules that star-import each other (CPython: importing gencyca first yields both names)
+CYC_A_SRC = 'from gencycb import *\ncyc_a = 1\n'
+CYC_B_SRC = 'from gencyca import *\ncyc_b = 2\n'
+CYC_NAMES = ['cyc_a', 'cyc_b']
 
 
 class Scope(object):
@@ -89,7 +93,18 @@ class ScopeGen(object):
             return '[%s, %s]' % (self.expr(sc, depth + 1), self.expr(sc, depth + 1))
         if r < 0.80:
             return self.comprehension(sc, depth)
-        if r < 0.88:
+        if r < 0.86:
+            real = sc
+            while getattr(real, 'synthetic', False):
+                real = real.parent
+            if real.kind in ('func', 'module') and not getattr(sc, 'in_lambda', False) and not getattr(self, 'no_walrus', 0):
+                n = self.rng.choice(self.pool)
+                if n not in real.globals and n not in real.nonlocals and not any(n in getattr(a, 'comp_targets', ()) for a in self.chain(sc)):
+                    val = self.expr(sc, depth + 1)
+                    real.will_bind.add(n)
+                    self.bind(real, n)
+                    return '(%s := %s)' % (n, val)
+        if r < 0.90:
             return self.lambda_call(sc, depth)
         callable_ = [f for f in sc.funcs if f[1]]
         if r < 0.94 and callable_:
@@ -97,11 +112,21 @@ class ScopeGen(object):
             return '⟦%d⟧%s' % (self.site, self.rng.choice(callable_)[1])
         return '(%s if %s else %s)' % (self.expr(sc, depth + 1), self.read(sc), self.expr(sc, depth + 1))
 
+    def chain(self, sc):
+        while sc is not None:
+            yield sc
+            sc = sc.parent
+
     def comprehension(self, sc, depth):
         # the first iterable is evaluated in the enclosing scope; the rest in the comprehension's
         t = self.fresh('t')
+        self.no_walrus = getattr(self, 'no_walrus', 0) + 1
         it = '[%s]' % self.expr(sc, depth + 1)
+        self.no_walrus -= 1
         inner = Scope('lambda', sc)       # function-like scope for candidate purposes
+        inner.synthetic = True            # a comprehension: walrus targets bind in the enclosing real scope
+        inner.comp_targets = (t,)
+        inner.in_lambda = getattr(sc, 'in_lambda', False)
         inner.bound.append(t)
         inner.will_bind.add(t)
         # known finding F46: a closure inside a comprehension that sits directly in a class body
@@ -124,6 +149,7 @@ class ScopeGen(object):
         while getattr(outer, 'comp_in_class', False):
             outer = outer.parent
         inner = Scope('lambda', outer)
+        inner.in_lambda = True
         inner.bound.append(p)
         inner.will_bind.add(p)
         dflt = self.expr(sc, depth + 1)
@@ -156,7 +182,7 @@ class ScopeGen(object):
 
     def block(self, sc, ind, depth, n_lo=1, n_hi=4, in_loop=False):
         out = []
-        for _ in range(self.rng.randint(n_lo, n_hi)):
+        for _ in range(self.rng.randint(n_lo, max(n_lo, n_hi))):
             if self.budget <= 0 and out:
                 break
             out.extend(self.stmt(sc, ind, depth, in_loop))
@@ -201,6 +227,11 @@ class ScopeGen(object):
                 self.bind(sc, nm)
                 sc.will_bind.add(nm)
                 return [I + 'from genlib import %s' % nm]
+            if self.rng.random() < 0.4:
+                for nm in CYC_NAMES:
+                    self.bind(sc, nm)
+                    sc.will_bind.add(nm)
+                return [I + 'from gencyca import *']
             for nm in LIB_NAMES:
                 self.bind(sc, nm)
                 sc.will_bind.add(nm)
@@ -267,8 +298,16 @@ class ScopeGen(object):
         I = ind
         name = self.fresh('f')
         out = []
-        for _ in range(self.rng.choice([0, 0, 1])):
-            out.append(I + '@_deco(%s)' % self.expr(sc))
+        for _ in range(max(getattr(self, '_force_deco', 0), self.rng.choice([0, 0, 1, 1, 2, 3]))):
+            e1 = self.read(sc) if getattr(self, '_force_deco', 0) else self.expr(sc)
+            if self.rng.random() < 0.3:
+                # a decorator call broken inside its brackets (more lines than decorators)
+                out.append(I + '@_deco(%s,' % e1)
+                out.append(I + '       %s)' % self.expr(sc))
+            else:
+                out.append(I + '@_deco(%s)' % e1)
+            if self.rng.random() < 0.15:
+                out.append(I + '# a comment between decorator and def')
         inner = Scope('func', sc)
         params = []
         call_args = []
@@ -345,7 +384,15 @@ class ScopeGen(object):
         # to keep candidates honest we pre-generate the body twice is overkill: Python decides locals
         # by the whole body, so a read generated before a later binding of the same name may be an
         # UnboundLocalError at run time - that just ends the run.
-        body = self.block(inner, body_ind, depth + 1, 1, 4)
+        first = []
+        if depth + 1 < self.max_depth and self.rng.random() < 0.3:
+            # the body opens with a decorated def/class whose decorators read the parameters
+            self._force_deco = 2
+            first = self.funcdef(inner, body_ind, depth + 1) if self.rng.random() < 0.7 else self.classdef(inner, body_ind, depth + 1)
+            self._force_deco = 0
+        body = first + self.block(inner, body_ind, depth + 1, 1 if not first else 0, 4)
+        if body == [body_ind + 'pass'] and first:
+            body = first
         out += decl + body
         # register + call
         sc.will_bind.add(name)
@@ -368,8 +415,8 @@ class ScopeGen(object):
         I = ind
         name = self.fresh('C')
         out = []
-        if self.rng.random() < 0.2:
-            out.append(I + '@_deco(%s)' % self.expr(sc))
+        for _ in range(max(getattr(self, '_force_deco', 0), 1 if self.rng.random() < 0.2 else 0)):
+            out.append(I + '@_deco(%s)' % (self.read(sc) if getattr(self, '_force_deco', 0) else self.expr(sc)))
         bases = []
         if self.rng.random() < 0.4:
             bases.append('_base(%s)' % self.expr(sc))
